@@ -406,6 +406,129 @@ def run_all(rep, prop, tier):
                 elif key.startswith("corpus|"):
                     rep.violation(f"{prop}|{key}", case)
         rep.add(corpus_seeds=len(cj))
+    if prop in ("C01", "C02", "C04", "C13"):
+        chains_engine(rep, prop, tier)
     rep.add(zoo_seeds=sorted(S), zoo_max_labels=maxlabels)
     rep.assumptions.append("above the fixpoint bound: relabellings to transposition distance 1 (+3 long permutations) of named seeds; "
                            "isomorphism by own refinement+backtracking search (validated against orbit tables for n<=5)")
+
+
+# ----------------------------------------------------------------------------------------------
+# decorated chains and rings: every colouring of P_n / C_n over a small element alphabet
+# (refinement needs many rounds and information has to travel along the chain)
+# ----------------------------------------------------------------------------------------------
+CHAIN_COLOURS = [("C", None, None), ("H", None, None), ("N", None, None), ("O", None, None)]
+
+
+def chain_jobs(tier):
+    from itertools import product
+
+    jobs = []
+    nmax = 8 if tier == "quick" else 9
+    for n in range(2, nmax + 1):
+        k = 4 if n <= 8 else 3
+        reps = []
+        for cs in product(range(k), repeat=n):
+            if cs <= cs[::-1]:
+                reps.append(cs)
+        for c0 in range(0, len(reps), 1500):
+            jobs.append(("path", n, reps[c0:c0 + 1500]))
+    for n in range(3, (8 if tier == "quick" else 10)):
+        k = 3
+        reps = []
+        for cs in product(range(k), repeat=n):
+            images = []
+            for r in range(n):
+                rot = cs[r:] + cs[:r]
+                images.append(rot)
+                images.append(rot[::-1])
+            if cs == min(images):
+                reps.append(cs)
+        for c0 in range(0, len(reps), 1500):
+            jobs.append(("ring", n, reps[c0:c0 + 1500]))
+    return jobs
+
+
+def run_chain_chunk(job):
+    from tucan.canonicalization import canonicalize_molecule
+    from tucan.io import graph_from_molfile_text
+    from tucan.serialization import serialize_molecule
+
+    from .e1 import canon_signature, refine_once
+
+    props, (kind, n, reps) = job
+    res = {"exec": 0, "states": 0, "transitions": 0, "vios": [], "strings": [], "nontrivial": 0}
+    edges = [(i, i + 1) for i in range(n - 1)] + ([(0, n - 1)] if kind == "ring" else [])
+    a0 = adj(n, edges)
+    perms = [tuple(range(n)), tuple(range(n - 1, -1, -1)), tuple(list(range(0, n, 2)) + list(range(1, n, 2)))]
+    for cs in reps:
+        cols = [CHAIN_COLOURS[c] for c in cs]
+        root = None
+        for p in perms:
+            c2 = [None] * n
+            for i in range(n):
+                c2[p[i]] = cols[i]
+            e2 = sorted(tuple(sorted((p[a], p[b]))) for a, b in edges)
+            xs = [0] * n
+            for i in range(n):
+                xs[p[i]] = i + 1
+            text = G.render_v3000(n, c2, e2, xs)
+            res["states"] += 1
+            res["transitions"] += 1
+            try:
+                gc = canonicalize_molecule(graph_from_molfile_text(text))
+                sig = canon_signature(gc)
+                s = serialize_molecule(gc)
+            except Exception as ex:
+                res["vios"].append((f"chains|exc|{type(ex).__name__}", {"kind": "zoo", "n": n, "seed": kind, "molfile": text,
+                                                                          "summary": f"{kind}{n} {cs}: pipeline raised {ex!r}"}))
+                continue
+            res["exec"] += 1
+            cls = [None] * n
+            for _, d in gc.nodes(data=True):
+                cls[int(round(d["x_coord"])) - 1] = d["partition"]
+            if root is None:
+                root = (s, sig, cls, text)
+                if len(set(cls)) >= 4:
+                    res["nontrivial"] += 1
+                if "C13" in props and not refine_once(n, cols, cls, a0):
+                    res["vios"].append(("C13|chains|equitable", {"kind": "zoo", "n": n, "seed": kind, "molfile": text,
+                                                                "summary": f"{kind}{n} colours={''.join(c[0] for c in cols)}: partition "
+                                                                           f"not monochromatic/equitable: {cls}"}))
+                continue
+            if "C01" in props and s != root[0]:
+                res["vios"].append(("C01|chains", {"kind": "e1-pair", "n": n, "molfile_a": root[3], "molfile_b": text, "tucan_a": root[0],
+                                                  "tucan_b": s, "summary": f"{kind}{n}: renumbering changes the string {root[0]!r} vs {s!r}"}))
+            if "C04" in props and sig != root[1]:
+                res["vios"].append(("C04|chains", {"kind": "e1-pair", "n": n, "molfile_a": root[3], "molfile_b": text, "tucan_a": root[0],
+                                                  "tucan_b": s, "summary": f"{kind}{n}: renumbering changes the canonical graph"}))
+            if "C13" in props and cls != root[2]:
+                res["vios"].append(("C13|chains|label-dependent", {"kind": "e1-pair", "n": n, "molfile_a": root[3], "molfile_b": text,
+                                                                  "perm": list(p), "summary": f"{kind}{n}: classes depend on numbering: {root[2]} vs {cls}"}))
+        if root and "C02" in props:
+            res["strings"].append((root[0], root[3]))
+    return res
+
+
+def chains_engine(rep, prop, tier):
+    from .common import pmap
+
+    props = frozenset([prop])
+    seen = {}
+    nchains = 0
+    for job, res in pmap(run_chain_chunk, [(props, j) for j in chain_jobs(tier)]):
+        nchains += len(job[1][2])
+        rep.add(states=res["states"], transitions=res["transitions"], traces_validated_against_impl=res["exec"],
+                distinct_nontrivial=res["nontrivial"], chain_executions=res["exec"])
+        for key, case in res["vios"]:
+            if key.startswith(prop):
+                rep.violation(key, case)
+            elif key.startswith("chains|"):
+                rep.violation(f"{prop}|{key}", case)
+        for s, text in res["strings"]:
+            if s in seen:
+                rep.violation("C02|chains|collision", {"kind": "e1-pair-differ", "n": job[1][1], "molfile_a": seen[s], "molfile_b": text, "tucan": s,
+                                                       "summary": f"two different decorated {job[1][0]}s share {s!r}"})
+            else:
+                seen[s] = text
+    rep.add(decorated_chains_and_rings=nchains)
